@@ -572,7 +572,7 @@ theorem binv_setTrackedOutputs (st st' : BuildState) (hb : BInv st) (bi : Nat)
 
 theorem linvS_addOrderLink (s s' : St) (hs : LInvS s) (a b : Nat) (h : Store.addOrderLink s a b = .ok s') : LInvS s' := by
   obtain ⟨b1, b2, b3, b4, _⟩ := addOrderLink_loc s s' hs.links a b h
-  refine ⟨b1, addOrderLink_free s s' hs.free a b h, ?_⟩
+  refine ⟨b1, addOrderLink_free s s' hs.free a b h, ?_, kindInv_addOrderLink s s' hs.links hs.kind a b h⟩
   refine locInv_step (hframe_of_grow b2 b4) hs.loc ?_
   intro l hm hn hv _
   rcases b3 l hm with h' | h'
@@ -823,7 +823,7 @@ theorem binv_call (st st' : BuildState) (hb : BInv st) (bi func : Nat) (ws : Lis
               | error e => simp [hl] at h
               | ok s2 =>
                 simp only [hl] at h
-                have i2 := linvS_addStaticLink s1 s2 i1 (func, 0) n fpo ⟨cop, hn, functionPortOffset_static cop fpo hf⟩ hl
+                have i2 := linvS_addStaticLink s1 s2 i1 (func, 0) n fpo ⟨cop, hn, functionPortOffset_static cop fpo hf⟩ (by simp) hl
                 split at h
                 · cases h
                 · rename_i s3 tys hw
@@ -940,7 +940,7 @@ theorem binv_loadConstNode (st st' : BuildState) (hb : BInv st) (bi c : Nat) (hd
                 rw [← (Prod.mk.inj h).1]
                 have hl' : Store.addLink s1' (c, 0) (h1.1, ((0 : Nat) : Int)) = .ok s2 := by simpa using hl
                 exact binv_setHugr st1 r.hid s2 b1
-                  (linvS_addStaticLink s1' s2 (b1.stores r.hid s1' e2) (c, 0) h1.1 0 ⟨op', e3, by rw [e4]; rfl⟩ hl')
+                  (linvS_addStaticLink s1' s2 (b1.stores r.hid s1' e2) (c, 0) h1.1 0 ⟨op', e3, by rw [e4]; rfl⟩ (by simp) hl')
         · cases h
 
 theorem binv_loadValue (st st' : BuildState) (hb : BInv st) (bi : Nat) (v : Value) (cp : Option Nat)
@@ -985,7 +985,7 @@ theorem binv_loadFunction (st st' : BuildState) (hb : BInv st) (bi func : Nat) (
               rw [← (Prod.mk.inj h).1]
               have hl' : Store.addLink s1 (func, 0) (n, ((0 : Nat) : Int)) = .ok s2 := by simpa using hl
               exact binv_setHugr st r.hid s2 hb
-                (linvS_addStaticLink s1 s2 i1 (func, 0) n 0 ⟨lop, hn, mkLoadFunc_static _ _ _ lop hlop⟩ hl')
+                (linvS_addStaticLink s1 s2 i1 (func, 0) n 0 ⟨lop, hn, mkLoadFunc_static _ _ _ lop hlop⟩ (by simp) hl')
 
 /-! ### commands and programs -/
 
